@@ -298,6 +298,7 @@ func main() {
 	streams(r, rnd)
 	receivingEnd(r, rnd)
 	truncatedThenComplete(r, rnd)
+	pendingDecrypt(r, rnd)
 	r.Floor("stream_messages_decrypted+violations", int(r.Counter("stream_messages_decrypted"))+1000*r.ViolationCount(), 1500)
 	r.Floor("parallel_session_messages+violations", int(r.Counter("parallel_session_messages"))+30000*r.ViolationCount(), 30000)
 	r.Floor("encrypt_calls_with_a_failing_source", int(r.Counter("encrypt_calls_with_a_failing_source")), 500)
